@@ -279,6 +279,8 @@ func H_Codec_Differential() {
 }
 
 // H_Codec_Stream: one value through Decoder/Encoder of the fork and of the standard library (both executed).
+var streamIndents = [][2]string{{"", ""}, {"", "  "}, {">", ""}, {"\t", "\t"}, {">", " "}}
+
 func H_Codec_Stream() {
 	doc := codecDoc(vx.Choose("shape", nCodecShapes), 1, vx.Param("atommask"))
 	vx.Assume(!doc.hasDupKeys())
@@ -290,6 +292,7 @@ func H_Codec_Stream() {
 	var ea1, ea2, eb1, eb2 error
 	var fa, fb bytes.Buffer
 	var moreA, moreB bool
+	indentMode := vx.Choose("indent", len(streamIndents))
 	panicked := vx.CatchPanic(func() {
 		da := json.NewDecoder(bytes.NewReader(stream))
 		da.UseNumber()
@@ -301,10 +304,19 @@ func H_Codec_Stream() {
 		eb1 = db.Decode(&b1)
 		moreB = db.More()
 		eb2 = db.Decode(&b2)
+		esc := vx.Choose("escape", 2) == 1
 		enc := json.NewEncoder(&fa)
-		enc.SetEscapeHTML(vx.Choose("escape", 2) == 1)
+		enc.SetEscapeHTML(esc)
+		encB := stdjson.NewEncoder(&fb)
+		encB.SetEscapeHTML(esc)
+		if indentMode > 0 {
+			enc.SetIndent(streamIndents[indentMode][0], streamIndents[indentMode][1])
+			encB.SetIndent(streamIndents[indentMode][0], streamIndents[indentMode][1])
+		}
 		enc.Encode(a1)
 		enc.Encode(a2)
+		encB.Encode(b1)
+		encB.Encode(b2)
 	})
 	vx.Assert(!panicked, "C17/stream-no-panic")
 	if panicked {
@@ -320,6 +332,13 @@ func H_Codec_Stream() {
 	ra, _ := json.Marshal(a1)
 	rb, _ := stdjson.Marshal(b1)
 	vx.Assert(vx.EqBytes(normBF(ra), normBF(rb)), "C17/stream-decode-same-as-stdlib")
+	// the Encoder writes what the standard library's Encoder writes under the same settings (prefix/indent pairs
+	// including prefix-only and indent-only)
+	vx.Assert(vx.EqBytes(normBF(fa.Bytes()), normBF(fb.Bytes())), "C17/encoder-same-as-stdlib")
+	if indentMode > 0 {
+		vx.Reach("codec/stream-end")
+		return
+	}
 	// what the Encoder wrote reads back as the two values, one per line
 	out := fa.Bytes()
 	nl := -1
@@ -334,6 +353,5 @@ func H_Codec_Stream() {
 		g, ok := parseJSON(out[:nl])
 		vx.Assert(ok && refEqual(g, doc), "C17/stream-roundtrip-value")
 	}
-	_ = fb
 	vx.Reach("codec/stream-end")
 }
